@@ -581,11 +581,19 @@ def spec_valid_for_snapshot(env, ctx, args):
 VFS = "TupleLayout::is_valid_for_snapshot,Snapshot::is_committed_before_snapshot,Snapshot::xid"
 
 
+def NOT_OWN_DELETE(W):
+    """is_valid_for_snapshot's only caller (parse_for_snapshot) returns None before calling it when the newest version
+    was deleted by the reader itself - that filter is obligation C04.own_delete_hides_older_versions - so versions with
+    xmax == own xid are not a reachable input of this kernel."""
+    return f"(not (and {W['has_del']} (= {W['d']} {W['xid']})))"
+
+
 @obligation(id="C04.valid_for_snapshot[xmax=Some]", funcs=VFS, assume=VIS_ASSUME,
-            bounds="all u64 creator/deleter ids, deleter optional, any snapshot with xmax = Some(m)",
+            bounds="all u64 creator/deleter ids, deleter optional (deleter != reader: filtered by the caller), any snapshot with xmax = Some(m)",
             **{"assert": "version_visible_iff_creator_visible_and_not_deleted"})
 def c04_vfs_some(env, ob):
-    return run_visibility(env, ob, "is_valid_for_snapshot", "storage/tuple.rs", lambda W: W["some"], spec_valid_for_snapshot)
+    return run_visibility(env, ob, "is_valid_for_snapshot", "storage/tuple.rs",
+                          lambda W: conj([W["some"], NOT_OWN_DELETE(W)]), spec_valid_for_snapshot)
 
 
 @obligation(id="C04.valid_for_snapshot[xmax=None,no future id]", funcs=VFS, assume=VIS_ASSUME,
@@ -593,7 +601,7 @@ def c04_vfs_some(env, ob):
             **{"assert": "version_visible_iff_creator_visible_and_not_deleted"})
 def c04_vfs_none_past(env, ob):
     return run_visibility(env, ob, "is_valid_for_snapshot", "storage/tuple.rs",
-                          lambda W: conj([W["none"], f"(bvule {W['cx']} {W['xid']})",
+                          lambda W: conj([W["none"], f"(bvule {W['cx']} {W['xid']})", NOT_OWN_DELETE(W),
                                           f"(=> {W['has_del']} (bvule {W['d']} {W['xid']}))"]), spec_valid_for_snapshot)
 
 
